@@ -153,6 +153,9 @@ func (t *Tape) Pick(weights []int, label string) int {
 // a simple repeating pattern, so minimised tapes carry simple content.
 func (t *Tape) Bytes(n int, label string) []byte {
 	seed := uint64(t.U32(label))
+	if n < 0 {
+		n = 0
+	}
 	out := make([]byte, n)
 	if seed == 0 {
 		for i := range out {
